@@ -409,6 +409,46 @@ func c09Binary(ev *vlib.Evidence) {
 		ev.Violate("binary:client-connect-failed", map[string]interface{}{"err": e})
 		return
 	}
+	// a host that answers a whitelist call only after the pool gave up on it, then closes:
+	// the late reply must not keep the pool from noticing the close
+	{
+		host := vlib.NewIdentity("c09blate", 0)
+		hc, err := wsDial(addr)
+		if err == nil {
+			if _, e := call(hc, host, 1, "vipnode_connect", vlib.ConnectReq(true, "geth", "", "")); e == "" {
+				got := make(chan json.RawMessage, 1)
+				go func() {
+					hc.SetReadDeadline(time.Now().Add(20 * time.Second))
+					_, data, err := hc.ReadMessage()
+					if err != nil {
+						got <- nil
+						return
+					}
+					var m struct {
+						ID json.RawMessage `json:"id"`
+					}
+					json.Unmarshal(data, &m)
+					got <- m.ID
+				}()
+				// the peer request waits for the pool's own 5 s whitelist timeout
+				_, e1 := call(cc, client, 50, "vipnode_peer", pool.PeerRequest{Num: 100})
+				if id := <-got; id != nil {
+					hc.WriteMessage(websocket.TextMessage, []byte(fmt.Sprintf(`{"jsonrpc":"2.0","id":%s,"result":null}`, id))) // too late
+					time.Sleep(100 * time.Millisecond)
+				}
+				hc.Close()
+				time.Sleep(300 * time.Millisecond)
+				_, e2 := call(cc, client, 51, "vipnode_peer", pool.PeerRequest{Num: 100})
+				ev.Case("binary late-reply-then-close", true)
+				ev.Count("binary-close-cycles:late-reply-then-close", 1)
+				if strings.Contains(e2, "failed to call") {
+					ev.Violate("binary:closed-host-still-called:late-reply-then-close", map[string]interface{}{"first_request_error": e1, "second_request_error": e2})
+				}
+			} else {
+				hc.Close()
+			}
+		}
+	}
 	modes := []string{"close-frame-1000", "abrupt", "going-away-1001", "close-frame-1008"}
 	for k := 0; k < vlib.Scale(8, 40); k++ {
 		mode := modes[k%len(modes)]
@@ -502,6 +542,24 @@ func TestC09(t *testing.T) {
 	}
 	run([]string{"0C", "0O", "0N", "0S", "0R"}, len1)
 	run([]string{"0C", "0O", "0N", "0S", "0R", "1C", "1O", "1N", "1S", "1R", "0Y", "1Y"}, len2)
+	// beyond the exhaustive bound: a PRNG sample of longer sequences over two hosts
+	alpha2 := []string{"0C", "0O", "0N", "0S", "0R", "1C", "1O", "1N", "1S", "1R", "0Y", "1Y"}
+	nLong := vlib.Scale(1200, 20000)
+	parallelCases(nLong, 16, func(i int) {
+		r := vlib.Rand("C09-long", i)
+		seq := []string{vlib.Pick(r, "0C", "1C")}
+		for len(seq) < 5+r.Intn(6) {
+			seq = append(seq, alpha2[r.Intn(len(alpha2))])
+		}
+		// drop events that are not applicable instead of discarding the whole sequence
+		for len(seq) > 0 && !c09Sequence(ev, driver, hosts, seq) {
+			seq = seq[:len(seq)-1]
+		}
+		if len(seq) > 0 {
+			ev.Case("long:"+strings.Join(seq, ","), true)
+			ev.Count("sampled-long-sequences", 1)
+		}
+	})
 	ev.Note("enumerated_sequences_including_invalid", total)
 	ev.Note("bounds", fmt.Sprintf("1 host: length<=%d; 2 hosts: length<=%d", len1, len2))
 	ev.Exhaustive()
